@@ -39,7 +39,14 @@ let form_of = function
   | "any" -> C09_AnyTrue | "all" -> C09_AllTrue | "anyf" -> C09_AnyFalse | "allf" -> C09_AllFalse
   | "hmax" -> C09_HMax | "hmin" -> C09_HMin | "lane" -> C09_LaneAll | "bcast" -> C09_Bcast | "icast" -> C09_ImplCast
   | "mor" -> C09_MaskOr | "mand" -> C09_MaskAnd
-  | s -> failwith ("form " ^ s)
+  | "vvself" -> C09_VVSelf | "avvself" -> C09_AssignVVSelf | "condself" -> C09_CondSelf | "condsame" -> C09_CondSame | "condmask" -> C09_CondMask
+  | s ->
+      (* aliasing forms with the aliased lane: avsk:<k> avsl:<k> vsk:<k> vsl:<k> svk:<k> *)
+      (match String.split_on_char ':' s with
+       | [("avsk" | "avsl"); k] -> C09_AssignVSLane (nat_of_int (int_of_string k))
+       | [("vsk" | "vsl"); k] -> C09_VSLane (nat_of_int (int_of_string k))
+       | ["svk"; k] -> C09_SVLane (nat_of_int (int_of_string k))
+       | _ -> failwith ("form " ^ s))
 
 let res_vec = function C09_Ok x -> String.concat " " (List.map vec x) | C09_FMatrixError _ -> "EXC FMatrixError"
 let res_vec1 = function C09_Ok x -> vec x | C09_FMatrixError _ -> "EXC FMatrixError"
